@@ -32,6 +32,8 @@ Replacer, to ten RE: patterns; the result must compile with no capturing group) 
 user-regex-language-preserved — differential table: the user's regex and its translation fully match the same strings of
 length <= 4 over the pattern's characters plus ':' and '?', per class (plain groups, escaped paren, paren in a char group,
 named groups).
+Fourth round: tree-matcher-knows-exceptions — every `self._*ignoreglobster = <Class>(..)` in the working-tree modules constructs an
+ExceptionGlobster (sibling agreement of the bzr and git trees).
 Does not decide: glob -> regex translation semantics for arbitrary patterns.
 """
 REPLACERS = ["_sub_named", "_sub_re", "_sub_fullpath", "_sub_basename"]
@@ -271,9 +273,22 @@ def run(ctx):
         want = "!!P2" if m2 else (None if m1 else ("P0" if m0 else None))
         row = f"double-exception={int(m2)} exception={int(m1)} plain={int(m0)}"
         ctx.check("exception-precedence", wm, got == want, f"{row} -> {want!r}", construct=f"{row} -> {got!r}", message=f"precedence wrong for {row}: got {got!r}, want {want!r} ('!!' overrides '!' overrides plain)")
+    # ---- fourth round: every working tree matches its ignore lists with the matcher that knows '!' and '!!' -------------
+    n_matchers = 0
+    for rel_ in ("breezy/bzr/workingtree.py", "breezy/git/workingtree.py", "breezy/workingtree.py"):
+        if not repo.exists(rel_):
+            continue
+        for q_, f_ in repo.module(rel_).functions().items():
+            for a in ast.walk(f_):
+                if isinstance(a, ast.Assign) and any(isinstance(t, ast.Attribute) and "ignoreglobster" in t.attr for t in a.targets) and isinstance(a.value, ast.Call):
+                    n_matchers += 1
+                    cls_ = norm(a.value.func).split(".")[-1]
+                    ctx.check("tree-matcher-knows-exceptions", f"{rel_}:{q_}", cls_ == "ExceptionGlobster", "the matcher a working tree builds from its ignore lists is an ExceptionGlobster ('!pattern' un-ignores, '!!pattern' ignores for good)", construct=norm(a)[:90], message=f"{q_} builds its ignore matcher with `{norm(a.value.func)}`: '!pat' and '!!pat' lines of the user-wide and runtime ignore lists lose their precedence in this kind of tree — keep.log is reported ignored by '*.log' despite '!keep.log'")
+    ctx.require(n_matchers >= 2, f"ignore matchers of the working trees found: {n_matchers} (expected the bzr and the git tree)")
 
 
 MUTANTS = [
+    Mutant("git tree matches global ignores without exception patterns", "breezy/git/workingtree.py", "            self._global_ignoreglobster = globbing.ExceptionGlobster(ignore_globs)\n", "            self._global_ignoreglobster = globbing.Globster(sorted(ignore_globs))\n", expect="tree-matcher-knows-exceptions"),
     Mutant("escaped parens rewritten again (fix 720ceeb reverted, first rule)", GF, '_sub_re.add(r"\\\\.", r"\\&")  # keep anything backslashed: \\( is not a group\n', '', expect="user-regex-language-preserved"),
     Mutant("named-group rule greedy again (fix 720ceeb reverted, third rule)", GF, '_sub_re.add("\\\\(\\\\?P<[^>]*>", _invalid_regex("(?:"))', '_sub_re.add("\\\\(\\\\?P<.*>", _invalid_regex("(?:"))', expect="user-regex-language-preserved"),
     Mutant("extension prefix loses the no-more-slash assertion", GF, "            \"prefix\": r\"(?:.*/)?(?!.*/)(?:.*\\.)\",", "            \"prefix\": r\"(?:.*\\.)\",", expect="last-component-only"),
